@@ -96,17 +96,18 @@ structure WF (s : Sol) : Prop where
   tri_ok : triOk s = true
   rstrip_ok : ∀ l ∈ render s, rstrip l = l
   comments_strip : ∀ c ∈ s.comments, strip c = c
+  hdrC_rstrip : rstrip s.hdrC = s.hdrC
 
 theorem wf_spec {s : Sol} (h : s.wf = true) : WF s := by
   simp only [Sol.wf, Bool.and_eq_true, beq_iff_eq, List.all_eq_true, decide_eq_true_eq] at h
-  obtain ⟨⟨⟨⟨⟨⟨⟨⟨⟨⟨⟨h1, h2⟩, h3⟩, h4⟩, h5⟩, h6⟩, h7⟩, h8⟩, h9⟩, h10⟩, h11⟩, h12⟩ := h
-  exact ⟨h1, h2, h3, h4, h5, h6, h7, fun x hx => by have := h8 x hx; exact ⟨this.1.1, this.1.2, this.2⟩, h9, h10, h11, h12⟩
+  obtain ⟨⟨⟨⟨⟨⟨⟨⟨⟨⟨⟨⟨h1, h2⟩, h3⟩, h4⟩, h5⟩, h6⟩, h7⟩, h8⟩, h9⟩, h10⟩, h11⟩, h12⟩, h13⟩ := h
+  exact ⟨h1, h2, h3, h4, h5, h6, h7, fun x hx => by have := h8 x hx; exact ⟨this.1.1, this.1.2, this.2⟩, h9, h10, h11, h12, h13⟩
 
 theorem wf_of_spec {s : Sol} (h : WF s) : s.wf = true := by
   simp only [Sol.wf, Bool.and_eq_true, beq_iff_eq, List.all_eq_true, decide_eq_true_eq]
-  exact ⟨⟨⟨⟨⟨⟨⟨⟨⟨⟨⟨h.hdrA_len, h.stamp_len⟩, h.hdrB_len⟩, h.hdrC_len⟩, h.hdrA_head⟩, h.comments_star⟩,
+  exact ⟨⟨⟨⟨⟨⟨⟨⟨⟨⟨⟨⟨h.hdrA_len, h.stamp_len⟩, h.hdrB_len⟩, h.hdrC_len⟩, h.hdrA_head⟩, h.comments_star⟩,
     h.site_code⟩, fun x hx => by have := h.soln_ok x hx; exact ⟨⟨this.1, this.2.1⟩, this.2.2⟩⟩, h.n_lt⟩, h.tri_ok⟩,
-    h.rstrip_ok⟩, h.comments_strip⟩
+    h.rstrip_ok⟩, h.comments_strip⟩, h.hdrC_rstrip⟩
 
 end Sinex
 
